@@ -836,6 +836,53 @@ fn nc_layout_table(scripts: &[ScriptModel], features: &[FeatureModel], lookups: 
     b.into_vec()
 }
 
+/// A "far twin": an Extension lookup (`ext`) whose only subtable `twin` is placed beyond the first 64 KiB of the
+/// table, at the position where its Coverage table starts exactly `span` bytes behind the Coverage table of the first
+/// subtable of the near lookup `near`. Valid (Extension subtables carry 32-bit offsets); it exists so that any
+/// per-table cache keyed by a *narrowed* table offset makes the two coverages collide.
+pub struct FarTwin {
+    pub ext: usize,
+    pub near: usize,
+    pub twin: Vec<u8>,
+    pub span: usize,
+}
+
+/// position of subtable `si` of lookup `li` relative to the start of the lookup list written by `lookup_list_multi`
+fn subtable_pos(lookups: &[(u16, Vec<Vec<u8>>)], li: usize, si: usize) -> usize {
+    let mut off = 2 + 2 * lookups.len();
+    for (_, subs) in &lookups[..li] {
+        off += 6 + 2 * subs.len() + subs.iter().map(|s| s.len()).sum::<usize>();
+    }
+    let subs = &lookups[li].1;
+    off + 6 + 2 * subs.len() + subs[..si].iter().map(|s| s.len()).sum::<usize>()
+}
+
+/// `nc_layout_table` plus far twins. `lookups[t.ext]` must be an Extension lookup with one 8-byte subtable
+/// (format 1, wrapped type, offset placeholder); the placeholder is patched here.
+fn nc_layout_table_far(scripts: &[ScriptModel], features: &[FeatureModel], lookups: &[(u16, Vec<Vec<u8>>)], fv: &[FvRecord], twins: &[FarTwin], filler: u8) -> Vec<u8> {
+    let mut table = nc_layout_table(scripts, features, lookups, fv);
+    let sl = script_list(scripts);
+    let fl = feature_list(features);
+    let ll_start = 14 + sl.len() + fl.len();
+    let mut twins: Vec<&FarTwin> = twins.iter().collect();
+    let cov_rel = |sub: &[u8]| u16::from_be_bytes([sub[2], sub[3]]) as usize;
+    let near_cov = |t: &FarTwin| ll_start + subtable_pos(lookups, t.near, 0) + cov_rel(&lookups[t.near].1[0]);
+    // place the twins in ascending order of their target position
+    twins.sort_by_key(|t| near_cov(t) + t.span - cov_rel(&t.twin));
+    for t in twins {
+        let mut at = near_cov(t) + t.span - cov_rel(&t.twin);
+        while at < table.len() {
+            at += 0x10000; // keep the congruence, move one more span out
+        }
+        table.resize(at, filler);
+        table.extend_from_slice(&t.twin);
+        let ext_at = ll_start + subtable_pos(lookups, t.ext, 0);
+        let rel = (at - ext_at) as u32;
+        table[ext_at + 4..ext_at + 8].copy_from_slice(&rel.to_be_bytes());
+    }
+    table
+}
+
 fn nc_single_subst(rng: &mut NcRng, lo: u16, hi: u16) -> Vec<u8> {
     let k = 3 + rng.below(12);
     let cov_glyphs = rng.subset(lo, hi, k);
@@ -1012,8 +1059,25 @@ impl NcFont {
         } else {
             &[*b"calt", *b"liga", *b"ccmp", *b"smcp", *b"rlig", *b"locl", *b"rvrn"]
         };
+        // seeds >= 36: tables larger than 64 KiB. Some single-substitution lookups get a far twin (an Extension
+        // lookup whose subtable lies 64 / 128 KiB further out, Coverage tables at offsets congruent modulo 65536)
+        let far = seed >= 36;
+        let mut gsub_twins: Vec<FarTwin> = Vec::new();
+        if far {
+            let ntw = 1 + rng.below(3);
+            for k in 0..ntw {
+                let near = rng.below(n_plain);
+                let twin = nc_single_subst(&mut rng, 1, NC_LETTERS);
+                gsub_lookups.push((7, vec![vec![0, 1, 0, 1, 0, 0, 0, 0]]));
+                gsub_twins.push(FarTwin { ext: gsub_lookups.len() - 1, near, twin, span: 0x10000 * (1 + (k + rng.below(2)) % 2) });
+            }
+        }
         let (gsub_scripts, gsub_features, gsub_fv, variable) = Self::nc_features(&mut rng, gsub_lookups.len(), gsub_tags);
-        let gsub = nc_layout_table(&gsub_scripts, &gsub_features, &gsub_lookups, &gsub_fv);
+        let gsub = if far {
+            nc_layout_table_far(&gsub_scripts, &gsub_features, &gsub_lookups, &gsub_fv, &gsub_twins, 0)
+        } else {
+            nc_layout_table(&gsub_scripts, &gsub_features, &gsub_lookups, &gsub_fv)
+        };
         // ---- GPOS
         let n_pos = 3 + rng.below(4);
         let mut gpos_lookups: Vec<(u16, Vec<Vec<u8>>)> = Vec::new();
@@ -1025,11 +1089,26 @@ impl NcFont {
                 _ => gpos_lookups.push((2, (0..nsub).map(|_| if rng.chance(70) { nc_pair_pos2(&mut rng) } else { nc_pair_pos1(&mut rng) }).collect())),
             }
         }
+        let mut gpos_twins: Vec<FarTwin> = Vec::new();
+        if far {
+            let ntw = 1 + rng.below(3);
+            for k in 0..ntw {
+                let near = rng.below(n_pos);
+                let ty = gpos_lookups[near].0;
+                let twin = if ty == 1 { nc_single_pos(&mut rng) } else if rng.chance(50) { nc_pair_pos1(&mut rng) } else { nc_pair_pos2(&mut rng) };
+                gpos_lookups.push((9, vec![vec![0, 1, 0, ty as u8, 0, 0, 0, 0]]));
+                gpos_twins.push(FarTwin { ext: gpos_lookups.len() - 1, near, twin, span: 0x10000 * (1 + (k + rng.below(2)) % 2) });
+            }
+        }
         let (gpos_scripts, gpos_features, mut gpos_fv, _) = Self::nc_features(&mut rng, gpos_lookups.len(), &[*b"kern", *b"dist", *b"kern", *b"mark", *b"liga"]);
         if !variable {
             gpos_fv.clear();
         }
-        let gpos = nc_layout_table(&gpos_scripts, &gpos_features, &gpos_lookups, &gpos_fv);
+        let gpos = if far {
+            nc_layout_table_far(&gpos_scripts, &gpos_features, &gpos_lookups, &gpos_fv, &gpos_twins, 0)
+        } else {
+            nc_layout_table(&gpos_scripts, &gpos_features, &gpos_lookups, &gpos_fv)
+        };
         // ---- font
         let mut f = BasicFont::with_glyphs(NC_GLYPHS);
         for (i, c) in nc_alphabet().iter().enumerate() {
